@@ -16,8 +16,11 @@ import (
 	"path/filepath"
 	"time"
 
+	"github.com/spf13/cobra"
+
 	"github.com/ajitpratap0/GoSQLX/cmd/gosqlx/internal/output"
 	"github.com/ajitpratap0/GoSQLX/pkg/gosqlx"
+	"github.com/ajitpratap0/GoSQLX/pkg/linter"
 	vx "github.com/ajitpratap0/GoSQLX/zzvx"
 )
 
@@ -565,3 +568,107 @@ func VxC19_Reports() {
 // VxFingerprint stands in for output.generateFingerprint under the engine (SHA-256 is not
 // interpreted; the fingerprint is not part of any assertion).
 func VxFingerprint(path, ruleID, message string) string { return "0000000000000000" }
+
+// ---- lint --auto-fix over the file-system model. lintRun itself is executed (cobra command
+// with buffers for its writers); in the overlay of lint.go the os.* calls, the stdin probe and
+// Linter.LintFiles (which reads files) are routed to the model.
+
+var vxLintTexts = []string{
+	"SELECT a\nFROM t\n",        // clean
+	"select  a ,b\nFROM  t \n",  // doubled spaces, trailing blank, lower-case keyword
+	"SELECT a\n\n\n\nFROM  t\n", // blank-line run, then doubled space
+	"\tSELECT a\n  \tFROM t\n",  // tab and mixed indentation
+	"SELECT 'p  q'  -- c  d\n",  // doubled spaces in a literal and a comment
+	"SELEC a FRM",               // does not parse
+	"",                          // zero bytes
+}
+
+func vxNoStdin(args []string) bool { return false }
+
+func vxLintFiles(l *linter.Linter, names []string) linter.Result {
+	res := linter.Result{TotalFiles: len(names)}
+	for _, n := range names {
+		d, ok := vxfs.files[n]
+		var fr linter.FileResult
+		if !ok {
+			fr = linter.FileResult{Filename: n, Error: errors.New("no such file")}
+		} else {
+			fr = l.LintString(string(d), n)
+		}
+		res.Files = append(res.Files, fr)
+		res.TotalViolations += len(fr.Violations)
+	}
+	return res
+}
+
+func vxLintSetup(n int) (orig [][]byte, want [][]byte) {
+	vxfs = vxNewFS()
+	lintMaxLength = 100
+	for k := 0; k < n; k++ {
+		t := vxLintTexts[vx.Choice(len(vxLintTexts))]
+		vxfs.put(vxC19Names[k], []byte(t), 0644)
+		orig = append(orig, []byte(t))
+		fixed, _ := vxAutoFix(createLinter(), t)
+		want = append(want, []byte(fixed))
+		vx.Notef("file %s = %q", vxC19Names[k], t)
+	}
+	return orig, want
+}
+
+func vxLintCmd() (*cobra.Command, *bytes.Buffer, *bytes.Buffer) {
+	c := &cobra.Command{}
+	var out, errb bytes.Buffer
+	c.SetOut(&out)
+	c.SetErr(&errb)
+	return c, &out, &errb
+}
+
+// VxC19_LintFix: no fault; --auto-fix on or off.
+func VxC19_LintFix() {
+	n := 1 + vx.Choice(2)
+	orig, want := vxLintSetup(n)
+	lintAutoFix = vx.Bool()
+	lintRecursive, lintFailOnWarn, lintSecurity, outputFile = false, false, false, ""
+	vx.Notef("autofix=%v", lintAutoFix)
+	c, _, _ := vxLintCmd()
+	_ = lintRun(c, vxC19Names[:n])
+	for k := range orig {
+		now := vxfs.files[vxC19Names[k]]
+		if !lintAutoFix {
+			vx.Assertf("C19.check_only_never_writes", bytes.Equal(now, orig[k]), "lint without --auto-fix modified %s", vxC19Names[k])
+		} else {
+			vx.Assertf("C19.lint_fix_writes_fixed", bytes.Equal(now, want[k]), "--auto-fix left %q in %s, the fixes give %q", now, vxC19Names[k], want[k])
+		}
+	}
+	vx.Assertf("C19.no_stray_files", len(vxfs.files) == n, "files on disk afterwards: %d", len(vxfs.files))
+}
+
+// VxC19_LintFixFault: --auto-fix with one injected fault (error or crash, k bytes of a write).
+func VxC19_LintFixFault()  { vxLintFixFault(1 + vx.Choice(2)) }
+func VxC19_LintFixFault1() { vxLintFixFault(1) }
+
+func vxLintFixFault(n int) {
+	orig, want := vxLintSetup(n)
+	lintAutoFix = true
+	lintRecursive, lintFailOnWarn, lintSecurity, outputFile = false, false, false, ""
+	maxLen := 0
+	for _, w := range want {
+		if len(w) > maxLen {
+			maxLen = len(w)
+		}
+	}
+	vxfs.faultOp = vx.Choice(16)
+	vxfs.crash = vx.Bool()
+	vxfs.faultK = vx.Choice(maxLen + 1)
+	vx.Notef("faultOp=%d crash=%v k=%d", vxfs.faultOp, vxfs.crash, vxfs.faultK)
+	c, _, _ := vxLintCmd()
+	crashed := vxRunCrashable(func() { _ = lintRun(c, vxC19Names[:n]) })
+	vx.Notef("crashed=%v ops=%d", crashed, vxfs.ops)
+	for k := range orig {
+		name := vxC19Names[k]
+		now, exists := vxfs.files[name]
+		isOld := exists && bytes.Equal(now, orig[k])
+		isNew := exists && bytes.Equal(now, want[k])
+		vx.Assertf("C19.atomic_replace", vx.Or(isOld, isNew), "after a fault at operation %d (crash=%v, %d bytes) %s holds %q: neither the original %q nor the fixed %q", vxfs.faultOp, vxfs.crash, vxfs.faultK, name, now, orig[k], want[k])
+	}
+}
